@@ -260,6 +260,23 @@ func c05Case(t *core.T, steps int, defaultScrypt bool) {
 		}
 		t.Count("refused_attempts", 1)
 	}
+	// afterSigning: whatever a signing call did (succeeded, failed half-way), the right passphrase
+	// must still do everything, twice in a row, and a wrong one nothing
+	afterSigning := func(x *wal, what string) {
+		for round := 0; round < 2 && !t.Failed(); round++ {
+			t.Eval(1)
+			if _, err := w.W.ExportWallet(x.id, x.pass); err != nil {
+				fail("right-passphrase-refused:export-after-signing", fmt.Sprintf("ExportWallet after %s: %v", what, err))
+			}
+			if m, _, err := w.W.GetMnemonic(x.id, x.pass); err != nil || m != x.mnemonic {
+				fail("right-passphrase-refused:mnemonic-after-signing", fmt.Sprintf("GetMnemonic after %s: %q %v", what, m, err))
+			}
+		}
+		if !t.Failed() {
+			refused("ExportWallet", func(p string) error { _, err := w.W.ExportWallet(x.id, p); return err }, x)
+			t.Count("signing_calls_followed_by_passphrase_checks", 1)
+		}
+	}
 	for s := 0; s < steps && !t.Failed(); s++ {
 		x := live()
 		if x == nil {
@@ -304,6 +321,8 @@ func c05Case(t *core.T, steps int, defaultScrypt bool) {
 			logf("SignHash(%s) right passphrase -> %v", x.id[:8], err)
 			if err != nil || !sig.Verify(h[:], a.PubKey) {
 				fail("right-passphrase-refused:sign", fmt.Sprintf("SignHash with the right passphrase: %v", err))
+			} else if t.R.Bool() {
+				afterSigning(x, "SignHash with the right passphrase")
 			}
 		case 3: // export with right passphrase
 			t.Eval(1)
@@ -448,21 +467,7 @@ func c05Case(t *core.T, steps int, defaultScrypt bool) {
 				fail("right-passphrase-refused:signrawtx", serr.Error())
 				continue
 			}
-			// afterwards the right passphrase must still do everything, twice in a row, and a wrong
-			// one nothing
-			for round := 0; round < 2 && !t.Failed(); round++ {
-				t.Eval(1)
-				if _, err := w.W.ExportWallet(x.id, x.pass); err != nil {
-					fail("right-passphrase-refused:export-after-signing", fmt.Sprintf("ExportWallet after SignRawTx (%s, result %v): %v", kind, serr, err))
-				}
-				if m, _, err := w.W.GetMnemonic(x.id, x.pass); err != nil || m != x.mnemonic {
-					fail("right-passphrase-refused:mnemonic-after-signing", fmt.Sprintf("GetMnemonic after SignRawTx (%s, result %v): %q %v", kind, serr, m, err))
-				}
-			}
-			if !t.Failed() {
-				refused("ExportWallet", func(p string) error { _, err := w.W.ExportWallet(x.id, p); return err }, x)
-				t.Count("signing_calls_followed_by_passphrase_checks", 1)
-			}
+			afterSigning(x, fmt.Sprintf("SignRawTx (%s, result %v)", kind, serr))
 		case 8: // remove with the right passphrase (then the wallet is gone)
 			if len(wallets) < 2 {
 				continue
